@@ -247,6 +247,8 @@ structure Params where
   mapTable : List ((TT × TT) × MapRoutine)
   mapDefault : MapRoutine
   mapBinaryGuard : Bool
+  /-- `updateMapAppendFunc` sends maps with double keys to the generic iterator (D13) -/
+  mapDoubleKeyGuard : Bool
   /-- decoder.go: every `T_binary` test of the string decoders looks through a pointer node
       (`*[]byte` fields), so that the slot is written as a `[]byte` and not as a `string` -/
   binarySeesThroughPtr : Bool
@@ -261,6 +263,7 @@ def skipFixedOf (P : Params) (w : Nat) : Nat := (P.skipFixed.lookup w).getD 0
 def listRoutine (P : Params) (e : TT) : WOp := (P.listTable.lookup e).getD P.listDefault
 def mapRoutine (P : Params) (k v : TT) (vIsBinary : Bool) : MapRoutine :=
   if P.mapBinaryGuard && vIsBinary then P.mapDefault
+  else if P.mapDoubleKeyGuard && k == .double then P.mapDefault
   else (P.mapTable.lookup (k, v)).getD P.mapDefault
 end Params
 
